@@ -75,7 +75,7 @@ def _rotsets(tier):
 def AXES(tier):
     return {"T": [1, 2, 3], "rotation_set": _rotsets(tier), "model": ["ZNCC", "PCC"] + (["NCC"] if tier == "thorough" else []),
             "displacement": DISP, "entry": ["Model.align", "Model.fit", "loader.align(stack)", "loader.align_multi_templates",
-                                            "group.align_multi_templates(list)", "group.align_multi_templates(mapping)", "brute-force"]}
+                                            "group.align_multi_templates(list)", "group.align_multi_templates(mapping)", "group.align_multi_templates(mapping with a different template order per key)", "brute-force"]}
 
 
 def cases(tier, seed):
@@ -104,8 +104,8 @@ def cases(tier, seed):
                     for j in range(T):
                         for k in range(K):
                             out.append({"kind": "model", "T": T, "rs": rs, "model": model, "j": j, "k": k, "d": list(DISP[1]), "toffset": 3.0})
-            for entry in ("align(stack)", "align_multi_templates", "group(list)", "group(mapping)", "align_multi_templates[with_params]", "align(stack)[with_params]"):
-                if T == 1 and entry == "group(mapping)":
+            for entry in ("align(stack)", "align_multi_templates", "group(list)", "group(mapping)", "group(mapping-permuted)", "align_multi_templates[with_params]", "align(stack)[with_params]"):
+                if T == 1 and entry.startswith("group(mapping"):
                     continue
                 for model in ("ZNCC", "PCC"):
                     out.append({"kind": "loader", "T": T, "rs": rs, "model": model, "entry": entry})
@@ -334,6 +334,11 @@ def _run_loader(case):
         outs = [loader.align_multi_templates(tm, max_shifts=ms, alignment_model=cls, **kw).molecules]
     elif entry == "group(list)":
         outs = [l.molecules for _, l in loader.groupby("g").align_multi_templates(tm, max_shifts=ms, alignment_model=cls, **kw)]
+    elif entry == "group(mapping-permuted)":
+        # every key has its own template list: key 1 gets the list reversed, so its labels count from the other end
+        grp = loader.groupby("g")
+        mapping = {key: (tm if key == 0 else tm[::-1]) for key in grp.keys}
+        outs = [l.molecules for _, l in grp.align_multi_templates(mapping, max_shifts=ms, alignment_model=cls, **kw)]
     else:
         grp = loader.groupby("g")
         mapping = {key: tm for key in grp.keys}
@@ -347,8 +352,9 @@ def _run_loader(case):
             seen += 1
             if T > 1 or not entry.startswith("align(stack)"):
                 lab = int(f["labels"][r])
-                if lab != j:
-                    viol.append((sig("label"), f"molecule {i} planted (template {j}, rotation {k}) of T={T}, K={K}: labels={lab}"))
+                jwant = T - 1 - j if (entry == "group(mapping-permuted)" and int(f["g"][r]) == 1) else j
+                if lab != jwant:
+                    viol.append((sig("label"), f"molecule {i} planted (template {j}, rotation {k}) of T={T}, K={K}: labels={lab}" + (f" (position {jwant} in the list of its group)" if jwant != j else "")))
             q_out = out.quaternion()[r]
             kk = _which_rotation(q_out, quats)  # input orientation is the identity
             rv = np.array([f["align-dzrot"][r], f["align-dyrot"][r], f["align-dxrot"][r]])
